@@ -14,4 +14,6 @@ if [ "${SKIP_COQCHK:-0}" != "1" ]; then
   tail -15 coq/.coqchk.txt
 fi
 # the per-property checks re-run the build of their own files and fail on their own; setup itself only prepares
+# C12: build the Rust extension from /repo/rust into /verif/.rust-build once, so that the first `./check C12` hits the cache
+/venv/bin/python -c 'import sys; sys.path.insert(0,"/verif"); from harness.props.C12 import build_extension; print(build_extension([])[1])' || true
 exit 0
